@@ -10,7 +10,9 @@ import z3
 import tempest.state_manager as sm_mod
 from tempest.state_manager import StateManager
 
-from vf.engine.core import PathCtx
+import math
+
+from vf.engine.core import PathCtx, SymBool
 from vf.engine.harness import Obligation
 from vf.engine.real import LogVal, SymReal
 from vf.engine.arr import NpProxy, patched, sarr
@@ -67,7 +69,7 @@ def spec_weights(per_batch, beta_final, D, shift_a=None):
 
 
 def run_real(st, beta_final, normalize=True):
-    with patched(sm_mod, np=NpProxy(exact_log=True)):
+    with patched(sm_mod, np=NpProxy(exact_log=True), float=lambda v: v):
         return st.compute_logw_and_logz(beta_final, normalize=normalize)
 
 
@@ -201,6 +203,158 @@ def make_relational(batches, betas, beta_final, D, kind):
                       stubs=["np.log/np.logaddexp -> exact log-domain algebra (LogVal)"], theory="QF_NRA")
 
 
+# ------------------------------------------------------------------ finiteness for log-likelihoods of any magnitude
+
+
+class RangeFloatOps:
+    """Range abstraction of double-precision exp/log (the only way magnitudes can hurt): exp(x) is an arbitrary
+    non-negative value that is exactly 0 below the underflow threshold and +inf above the overflow threshold; log(0) = -inf;
+    np.logaddexp (numpy's stable primitive) maps finite inputs to a finite value >= its inputs."""
+
+    UNDER, OVER = Fraction(-7451, 10), Fraction(7097, 10)
+
+    def __init__(self, ctx):
+        self.ctx = ctx
+        self.k = 0
+
+    def fresh(self, base, **kw):
+        self.k += 1
+        return real(self.ctx, f"{base}!{self.k}", **kw)
+
+    def exp1(self, x):
+        if isinstance(x, float):
+            return math.exp(x) if x < 700 else float("inf")
+        x = SymReal.lift(x)
+        c = x.concrete()
+        if c is not None:
+            return SymReal.const(Fraction(math.exp(float(c)))) if -700 < float(c) < 700 else (0.0 if c < 0 else float("inf"))
+        if bool(x > self.OVER):
+            return float("inf")
+        e = self.fresh("exp", lo=0)
+        self.ctx.assume(z3.Implies((x < self.UNDER).z, e.n == 0))
+        self.ctx.assume(z3.Implies((x >= self.UNDER).z, e.n > 0))
+        return e
+
+    def log1(self, x):
+        if isinstance(x, (int, np.integer, float, np.floating)) and not isinstance(x, bool):
+            return float(np.log(x)) if x > 0 else (float("-inf") if x == 0 else float("nan"))
+        x = SymReal.lift(x)
+        if bool(x == 0):
+            return float("-inf")
+        if bool(x < 0):
+            return float("nan")
+        return self.fresh("log")
+
+    def _map(self, f, a):
+        if isinstance(a, np.ndarray):
+            out = np.empty(a.shape, dtype=object)
+            for idx in np.ndindex(a.shape):
+                out[idx] = f(a[idx])
+            if a.ndim == 0:
+                return out.item()
+            try:
+                return out.astype(float) if all(isinstance(v, float) for v in out.reshape(-1)) else out.view(type(sarr([0])))
+            except Exception:
+                return out
+        return f(a)
+
+    def exp(self, a):
+        return self._map(self.exp1, a)
+
+    def log(self, a):
+        return self._map(self.log1, a)
+
+    def lae_pair(self, a, b):
+        for v in (a, b):
+            if isinstance(v, float) and (math.isnan(v) or v == float("inf")):
+                return v
+        if isinstance(a, float) and a == float("-inf"):
+            return b
+        if isinstance(b, float) and b == float("-inf"):
+            return a
+        r = self.fresh("lae")
+        self.ctx.assume(z3.And((r >= a).z if isinstance(r >= a, SymBool) else z3.BoolVal(True),
+                               (r >= b).z if isinstance(r >= b, SymBool) else z3.BoolVal(True)))
+        return r
+
+    def lae_reduce(self, arr, axis=0):
+        arr = np.asarray(arr, dtype=object)
+        if arr.ndim == 1:
+            if arr.size == 0:
+                return float("-inf")
+            acc = arr[0]
+            for v in arr[1:]:
+                acc = self.lae_pair(acc, v)
+            return acc
+        moved = np.moveaxis(arr, axis, -1)
+        out = np.empty(moved.shape[:-1], dtype=object)
+        for idx in np.ndindex(moved.shape[:-1]):
+            out[idx] = self.lae_reduce(moved[idx])
+        return out.view(type(sarr([0])))
+
+
+def make_finite(batches, betas, beta_final, shifted=False):
+    from vf.engine.core import HarnessError
+
+    def harness(ctx: PathCtx):
+        ops = RangeFloatOps(ctx)
+        st = StateManager(n_dim=1)
+        c = real(ctx, "cshift", lo=-1000, hi=1000) if shifted else None
+        k = 0
+        for t, nt in enumerate(batches):
+            ls = [real(ctx, f"logl{k + j}", lo=-10 ** 6, hi=10 ** 6) for j in range(nt)]
+            lz = real(ctx, f"logz{t}", lo=-10 ** 6, hi=10 ** 6)
+            if shifted:
+                ls = [l + c for l in ls]
+                lz = lz + c * Fraction(betas[t])
+            st.update_current({"logl": sarr(ls), "beta": float(betas[t]), "logz": lz})
+            st.commit_current_to_history()
+            k += nt
+        lae = type("LAE", (), {"reduce": staticmethod(ops.lae_reduce), "__call__": staticmethod(ops.lae_pair)})()
+        proxy = NpProxy(overrides={"exp": ops.exp, "log": ops.log, "logaddexp": lae, "isfinite": lambda a: True})
+        try:
+            with patched(sm_mod, np=proxy, float=lambda v: v):  # float() of a double is the identity
+                logw, logz = st.compute_logw_and_logz(float(beta_final), normalize=True)
+        except HarnessError as e:
+            if "non-finite" in str(e):
+                ctx.fail("weights-and-evidence-stay-finite", str(e))
+                return None
+            raise
+        except (TypeError, ZeroDivisionError) as e:
+            ctx.fail("weights-and-evidence-stay-finite", f"{type(e).__name__}: {e}")
+            return None
+        vals = [v for v in np.asarray(logw, dtype=object).reshape(-1)] + [logz]
+        bad = [v for v in vals if isinstance(v, (float, np.floating)) and not math.isfinite(v)]
+        ctx.check("weights-and-evidence-stay-finite", z3.BoolVal(not bad), detail=[str(v) for v in bad][:3])
+        return None
+
+    def replay(m, label, v):
+        st = StateManager(n_dim=1)
+        c = float(m.get("cshift", 0.0)) if shifted else 0.0
+        k = 0
+        for t, nt in enumerate(batches):
+            ll = np.array([float(m[f"logl{k + j}"]) for j in range(nt)]) + c
+            st.update_current({"logl": ll, "beta": float(betas[t]), "logz": float(m[f"logz{t}"]) + float(betas[t]) * c})
+            st.commit_current_to_history()
+            k += nt
+        with np.errstate(all="ignore"):
+            logw, logz = st.compute_logw_and_logz(float(beta_final))
+        bad = not (np.all(np.isfinite(logw)) and np.isfinite(logz))
+        return {"reproduced": bool(bad), "signature": "compute_logw_and_logz:non-finite",
+                "payload": {"logl": [b.tolist() for b in st._history["logl"]], "logz_t": [float(z) for z in st._history["logz"]],
+                            "logw": np.asarray(logw).tolist(), "logz": float(logz)},
+                "what": f"compute_logw_and_logz({float(beta_final)}) on logl {[b.tolist() for b in st._history['logl']]}, betas {[float(b) for b in betas]}: "
+                        f"logw={np.asarray(logw).tolist()}, logz={float(logz)} (non-finite)"}
+
+    return Obligation(f"finite{'-shifted' if shifted else ''}-n{'x'.join(map(str, batches))}-b{'_'.join(str(b) for b in betas)}-bf{beta_final}", harness,
+                      replay=replay, encodes=[StateManager.compute_logw_and_logz],
+                      bounds=f"batches {batches}, betas {list(map(str, betas))}, log-likelihoods and log-evidences arbitrary reals in [-1e6, 1e6]"
+                             + (", shift c in [-1e3,1e3]" if shifted else ""),
+                      stubs=["np.exp/np.log -> range abstraction of double precision (underflow to 0 below -745.1, overflow above 709.7, log(0) = -inf)",
+                             "np.logaddexp -> finite inputs give a finite value >= inputs (numpy's stable primitive is trusted)"],
+                      theory="QF_LRA", max_paths=5000)
+
+
 H = Fraction(1, 2)
 Q = Fraction(1, 4)
 
@@ -227,4 +381,9 @@ def obligations(tier):
     for batches, betas, bf, D in rel:
         obs.append(make_relational(batches, tuple(Fraction(b) for b in betas), Fraction(bf), D, "permute"))
         obs.append(make_relational(batches, tuple(Fraction(b) for b in betas), Fraction(bf), D, "shift"))
+    obs.append(make_finite((2, 1), (Fraction(0), H), Fraction(1)))
+    obs.append(make_finite((1, 1), (H, Fraction(1)), Fraction(1)))
+    if tier == "thorough":
+        obs.append(make_finite((2, 2, 1), (Fraction(0), H, Fraction(1)), Fraction(1)))
+        obs.append(make_finite((1, 2), (Fraction(0), Fraction(1)), H))
     return obs
